@@ -47,7 +47,7 @@ def build(rec, r, wd, depth, maxdepth, uniq, dupname=None):
     e = d["SUIT_Envelope_Tagged"]
     pl = e.get("suit-integrated-payloads", {})
     for i in range(r.choice([0, 1, 2])):
-        pl[r.choice(NAMES) + uniq + str(i)] = G.rhex(r)
+        pl[r.choice(NAMES) + uniq + str(i)] = G.rhex(r, 70001) if r.random() < 0.02 else G.rhex(r)
     if dupname and (depth == maxdepth or r.random() < 0.5):
         # the same name at several levels: unrelated bytes, identical bytes, a strict prefix, or empty
         base = "a1b2c3d4e5f60718"
